@@ -32,6 +32,10 @@ type Fail struct {
 	Msg string `json:"msg"`
 	// Detail is free-form (expected/observed).
 	Detail any `json:"detail,omitempty"`
+	// Class optionally names a narrow, code-defined family this failure
+	// belongs to (syntactic shape of the input plus observed behaviour). A
+	// known finding may be recorded for a whole class with key "class:<Class>".
+	Class string `json:"class,omitempty"`
 }
 
 func Failf(key, format string, args ...any) *Fail {
@@ -55,6 +59,9 @@ type Ctx struct {
 	Rule  string
 	// Replay, when non-empty, is the path of a replay file to re-execute.
 	Replay string
+	// Reruns is how many extra times a failing case is re-executed before it
+	// is believed (default 4).
+	Reruns int
 
 	Assumptions []string
 	Extra       map[string]any
@@ -78,6 +85,7 @@ type Ctx struct {
 	nondet     []string
 	Workers    int
 	counters   map[string]*atomic.Int64
+	dumpf      *os.File
 }
 
 type violation struct {
@@ -87,7 +95,7 @@ type violation struct {
 }
 
 func NewCtx(id, tier string) *Ctx {
-	c := &Ctx{ID: id, Tier: tier, Level: "exploration", start: time.Now(), Extra: map[string]any{}}
+	c := &Ctx{ID: id, Tier: tier, Level: "exploration", start: time.Now(), Extra: map[string]any{}, Reruns: 4}
 	c.seed = maphash.MakeSeed()
 	for i := range c.distinct {
 		c.distinct[i] = map[uint64]struct{}{}
@@ -241,7 +249,7 @@ func (c *Ctx) Report(f *Fail, cs any, rerun func() *Fail) {
 		return
 	}
 	if rerun != nil {
-		for i := 0; i < 4; i++ {
+		for i := 0; i < c.Reruns; i++ {
 			g := rerun()
 			if g == nil || g.Key != f.Key {
 				c.mu.Lock()
@@ -253,7 +261,21 @@ func (c *Ctx) Report(f *Fail, cs any, rerun func() *Fail) {
 	}
 	c.mu.Lock()
 	defer c.mu.Unlock()
-	if k := c.known[f.Key]; k != nil {
+	k := c.known[f.Key]
+	if k == nil && f.Class != "" {
+		k = c.known["class:"+f.Class]
+	}
+	if dump := os.Getenv("VERIF_DUMP"); dump != "" {
+		if c.dumpf == nil {
+			c.dumpf, _ = os.Create(dump)
+		}
+		kn := "NEW"
+		if k != nil {
+			kn = "known"
+		}
+		fmt.Fprintf(c.dumpf, "%s\t%s\t%s\t%s\n", kn, f.Class, oneLine(f.Key), oneLine(f.Msg))
+	}
+	if k != nil {
 		k.hits++
 		if c.knownHits[k.Class] == 0 {
 			c.knownFirst[k.Class] = f.Key + " — " + k.What
@@ -418,6 +440,30 @@ func oneLine(s string) string {
 // each case and returns nil or a failure. It returns true when gen completed
 // without the time budget expiring.
 func Run[T any](c *Ctx, gen func(emit func(T)), run func(T) *Fail) bool {
+	return RunBatch(c, 64, gen, func(ts []T) []*Fail {
+		out := make([]*Fail, len(ts))
+		for i, t := range ts {
+			out[i] = safeRun(run, t)
+		}
+		return out
+	})
+}
+
+// RunBatch is like Run but hands the cases to run in batches of up to size
+// (useful when one external process judges many cases). run returns one
+// entry per case, nil meaning the case passed. A failing case is re-executed
+// alone before it is believed.
+func RunBatch[T any](c *Ctx, size int, gen func(emit func(T)), run func([]T) []*Fail) bool {
+	one := func(t T) *Fail {
+		r := safeRun(func(t T) *Fail {
+			fs := run([]T{t})
+			if len(fs) == 0 {
+				return nil
+			}
+			return fs[0]
+		}, t)
+		return r
+	}
 	if c.Replay != "" {
 		data, err := os.ReadFile(c.Replay)
 		if err != nil {
@@ -432,7 +478,7 @@ func Run[T any](c *Ctx, gen func(emit func(T)), run func(T) *Fail) bool {
 			fmt.Fprintln(os.Stderr, "bad replay file")
 			os.Exit(2)
 		}
-		f := safeRun(run, t)
+		f := one(t)
 		if f != nil {
 			fmt.Printf("replay: %s\n", f.Msg)
 			if d, err := json.MarshalIndent(f.Detail, "", " "); err == nil && f.Detail != nil {
@@ -442,7 +488,6 @@ func Run[T any](c *Ctx, gen func(emit func(T)), run func(T) *Fail) bool {
 		c.Report(f, t, nil)
 		return true
 	}
-	const chunk = 64
 	ch := make(chan []T, c.Workers*4)
 	var wg sync.WaitGroup
 	for w := 0; w < c.Workers; w++ {
@@ -450,11 +495,28 @@ func Run[T any](c *Ctx, gen func(emit func(T)), run func(T) *Fail) bool {
 		go func() {
 			defer wg.Done()
 			for batch := range ch {
-				for _, t := range batch {
-					c.evals.Add(1)
-					f := safeRun(run, t)
+				c.evals.Add(int64(len(batch)))
+				var fs []*Fail
+				func() {
+					defer func() {
+						if r := recover(); r != nil {
+							// a panic in a batch: fall back to one by one
+							if os.Getenv("VERIF_DEBUG") != "" {
+								fmt.Fprintf(os.Stderr, "batch panic: %v\n", r)
+							}
+							c.Count("batch_panics", 1)
+							fs = make([]*Fail, len(batch))
+							for i, t := range batch {
+								fs[i] = one(t)
+							}
+						}
+					}()
+					fs = run(batch)
+				}()
+				for i, f := range fs {
 					if f != nil {
-						c.Report(f, t, func() *Fail { return safeRun(run, t) })
+						t := batch[i]
+						c.Report(f, t, func() *Fail { return one(t) })
 					}
 				}
 			}
@@ -474,11 +536,11 @@ func Run[T any](c *Ctx, gen func(emit func(T)), run func(T) *Fail) bool {
 		}()
 		gen(func(t T) {
 			buf = append(buf, t)
-			if len(buf) >= chunk {
+			if len(buf) >= size {
 				ch <- buf
 				buf = nil
 				n++
-				if n%16 == 0 && c.Expired() {
+				if n%8 == 0 && c.Expired() {
 					complete = false
 					panic(stop{})
 				}
